@@ -26,7 +26,11 @@ def candidates(rng, n):
         if not any(v["def"] for v in E["variants"]):
             base.append(E)
     for k in range(n):
-        base.append(SC.sample_def(rng, 0, nmax=6, default_ok=False, perr=False))
+        E = SC.sample_def(rng, 0, nmax=6, default_ok=False, perr=False)
+        if E["generics"] == "none" and k % 5 == 0:
+            # disabled + default: the variant is removed, the enum still has no (effective) default variant
+            E["variants"].insert(rng.randint(0, len(E["variants"])), variant("Legacy", "tuple", [field("String")], default=True, dis=True))
+        base.append(E)
     for E in base:
         fieldless = E["generics"] == "none" and all(v["kind"] == "unit" for v in E["variants"])
         for perr in (True, False):
@@ -34,7 +38,7 @@ def candidates(rng, n):
                 E2 = copy.deepcopy(E)
                 E2["id"], E2["name"], E2["perr"], E2["phf"] = did, "E%d" % did, perr, phf
                 # the error type / function may be written relative to the enum itself
-                E2["perr_form"] = (did % 3) if perr else 0
+                E2["perr_form"] = (did % 5) if perr else 0
                 cands.append(E2)
                 did += 1
     return cands
@@ -50,6 +54,10 @@ def module(E):
         g = D.GENERICS[E["generics"]]
         tg = {"none": "", "ty": "<T>", "tywhere": "<T>", "lt": "<'a>", "const": "<N>", "tyconst": "<T, N>"}[E["generics"]]
         src += "impl%s %s%s%s { pub fn make_err(s: &str) -> UserErr { user_err(s) } }\n" % (g["decl"], E["name"], tg, g.get("where", ""))
+    elif form == 3:
+        src = src.replace("parse_err_fn = user_err", "parse_err_fn = UserErr::from")        # impl From<&str> for UserErr
+    elif form == 4:
+        src = src.replace("parse_err_fn = user_err", "parse_err_fn = user_err_generic")       # fn f<S: AsRef<str>>(s: S) -> UserErr
     elif form == 2 and E["generics"] in ("ty", "tywhere"):
         src = src.replace("parse_err_ty = UserErr", "parse_err_ty = GenErr<T>").replace("parse_err_fn = user_err", "parse_err_fn = gen_err")
         src = src.replace("parse_batch::<%s, UserErr>" % D.inst(E), "parse_batch::<%s, GenErr<u16>>" % D.inst(E))
